@@ -25,7 +25,7 @@ RULE = ('case = seeded netlist (<= 5 inputs, primitive gates, <= 2 primitive fli
         'a sequential/multi-output cell, or a restore happened between two other transformations; distinct = distinct case digests')
 REAL_VS_STUB = {'real': ['kyupy.circuit.Circuit: copy, __getstate__/__setstate__ (pickle), eliminate_1to1_forks, substitute, remove_dangling_nodes, resolve_tlib_cells, s_nodes', 'kyupy.techlib libraries and kyupy.bench.parse (providers of implementation circuits, trusted)'],
                 'stub': ['none; RefEval is the reference evaluator']}
-ASSUMPTIONS = ['an instance input pin is left unconnected only where "reads 0" and "not connected" give the cell the same function (otherwise the function before resolving is ambiguous)',
+ASSUMPTIONS = ['the set of cell names every library must offer is the pinned tree\'s (dsim/data/libcells.json, 1026 names); additional cells are fine', 'an instance input pin is left unconnected only where "reads 0" and "not connected" give the cell the same function (otherwise the function before resolving is ambiguous)',
                'the function of a sequential library instance is defined through its implementation: state = the state element inside, result = value at that element\'s data pin',
                'one library per case; resolve_tlib_cells is called with the library the instances were taken from']
 EXPECTED_PROBES = ['implementation_reused_after_edit', 'nested_multi_output_impl', 'resolve_step', 'substitute_step', 'restore_step', 'elim_step', 'unconnected_input_pin', 'unconnected_output_pin', 'sequential_cell', 'multi_output_cell', 'cell_without_output', 'ignored_pin_cell']
@@ -243,10 +243,26 @@ def table(c, tlibs, overrides):
     return names, {n.name: (0 if o is None else o) for n, o in zip(ev.snodes, obs)}
 
 
+_missing = {}
+
+
+def missing_cells(li):
+    """Cell names of the pinned tree (dsim/data/libcells.json) that the library no longer offers."""
+    if li not in _missing:
+        import json, os
+        pinned = json.load(open(os.path.join(os.path.dirname(os.path.dirname(os.path.abspath(__file__))), 'data', 'libcells.json')))
+        _missing[li] = [n for n in pinned[LIBS[li]] if n not in lib_of(li).cells]
+    return _missing[li]
+
+
 def execute(case):
     from kyupy import bench
     res = core.Result()
     tlib = lib_of(case['lib'])
+    if missing_cells(case['lib']):
+        # the catalogue walk enumerates the library itself, so a cell that silently dropped out of a library would go unnoticed
+        res.violate('library-cell-missing', f'library {LIBS[case["lib"]]} no longer offers {missing_cells(case["lib"])[:6]} ({len(missing_cells(case["lib"]))} names of the pinned tree): instances of these cells cannot be resolved')
+        return res
     c = build(case, res)
     uid = 0
     prev_kind = None
